@@ -44,6 +44,19 @@ func verifSlot(fast bool, index, typeptr uintptr, set *OpcodeSet) {
 	}
 }
 
+// verifProgram checks the program a lookup finally returns (after field-query filtering).
+func verifProgram(typeptr uintptr, set *OpcodeSet) {
+	if set == nil || uintptr(unsafe.Pointer(set.Type)) == typeptr {
+		return
+	}
+	verifState.mu.Lock()
+	defer verifState.mu.Unlock()
+	if len(verifState.problems) < 100 {
+		verifState.problems = append(verifState.problems,
+			fmt.Sprintf("encoder: filtered program compiled for type %#x returned for type %#x", uintptr(unsafe.Pointer(set.Type)), typeptr))
+	}
+}
+
 // VerifReport returns the problems seen so far and the slot used for each type (all ones = map path).
 func VerifReport() ([]string, map[uintptr]uintptr) {
 	verifState.mu.Lock()
